@@ -230,7 +230,7 @@ async fn run(input: RunInput, mode: Mode) -> RunOutput {
             // legitimately keep it over the fresh one, so this is only judged with keep-alive)
             // ... and only while no node has crashed: after a crash the peers hold connections to
             // the dead incarnation until they notice, and the tie-break may keep such a one
-            if res.is_ok() && !faulty && !crashed && ka_ms.is_some() && mode == Mode::C04 {
+            if res.is_ok() && !faulty && !crashed && ka_effective.is_some() && mode == Mode::C04 {
                 // after a (re-)dial the peer is listed and the registered connection serves RPCs
                 let listed = slots[i].node.net.peers().contains(&ids[j]);
                 w.check(listed, "peer-not-listed-after-dial", format!("re={already}"), || format!("n{i} dialed n{j} successfully but does not list it"));
@@ -480,7 +480,7 @@ async fn run(input: RunInput, mode: Mode) -> RunOutput {
                 }
             }
         }
-        if ka_ms.is_some() && !w.violated() {
+        if ka_effective.is_some() && !w.violated() {
             for a in 0..n {
                 for b in 0..n {
                     if a != b && views[a].contains(&ids[b]) {
